@@ -475,6 +475,7 @@ pub fn run(tier: Tier, seed: u64) -> Report {
     p.max_ops = tier.pick(40, 120);
     p.w = [42, 14, 22, 8, 10, 4];
     p.big_permille = 6;
+    p.empty_permille = 30;
     let total = tier.pick(6000, 60_000);
     let r = engine::explore("C13", "protocol", seed, total, || pcase(&p), check_protocol);
     rep.absorb("protocol-lockstep", r);
